@@ -53,8 +53,41 @@ Proof.
   assert (S1 : skipn (Z.to_nat n) (r0 ++ r) = a :: b :: c :: d :: data ++ r).
   { rewrite skipn_app. replace (Z.to_nat n - length r0)%nat with 0%nat by lia. cbn [skipn]. rewrite S. reflexivity. }
   rewrite F1, S1. cbn [firstn skipn]. rewrite be4_value.
+  replace (Z.of_nat (length (f :: n :: r0)) <? 6 + n) with false by (cbn [length]; lia).
   replace (Z.of_nat (length (f :: n :: r0)) - (6 + n)) with (Z.of_nat (length data)) by (cbn [length]; lia).
   rewrite py_take_exact, py_drop_exact. reflexivity.
+Qed.
+
+(* ... and on no other: whatever the model parser accepts of a packet body (followed by anything) the RFC decoder accepts with the
+   same fields, and the octets after the body are left alone.  (False before 08ffd01: a name length beyond the body took the name,
+   the date and the data from the octets that follow.) *)
+Theorem lit_parse_only_rfc body r l r' : wf_bytes body -> wf_bytes r ->
+  lit_parse (Z.of_nat (length body)) (body ++ r) = Some (l, r') ->
+  rfc_lit_dec body = Some (l_format l, l_name l, l_mtime l, l_data l) /\ r' = r.
+Proof.
+  intros Hwf Hr H.
+  assert (X : exists f name t data, rfc_lit_dec body = Some (f, name, t, data)).
+  { destruct body as [|f0 [|n r0]].
+    - (* empty body: format and name length would be octets of what follows *)
+      exfalso. cbn [app length Z.of_nat] in H. destruct r as [|a [|b r2]]; try discriminate H. cbn [lit_parse] in H.
+      assert (0 <= b < 256) by (inversion Hr as [|? ? _ Hw]; subst; inversion Hw; subst; assumption).
+      replace (0 <? 6 + b) with true in H by lia. discriminate H.
+    - exfalso. cbn [app length] in H. destruct r as [|b r2]; try discriminate H. cbn [lit_parse] in H.
+      assert (0 <= b < 256) by (inversion Hr; subst; assumption).
+      replace (Z.of_nat 1 <? 6 + b) with true in H by lia. discriminate H.
+    - assert (Hn : 0 <= n < 256).
+      { inversion Hwf as [|? ? _ Hw]; subst. inversion Hw; subst. assumption. }
+      cbn [app lit_parse] in H.
+      destruct (Z.of_nat (length (f0 :: n :: r0)) <? 6 + n) eqn:G; [discriminate H|]. cbn [length] in G.
+      cbn [rfc_lit_dec].
+      assert (E : (Z.to_nat n + 4 <= length r0)%nat) by lia.
+      apply Nat.leb_le in E. rewrite E. apply Nat.leb_le in E.
+      pose proof (skipn_length (Z.to_nat n) r0) as SL.
+      destruct (skipn (Z.to_nat n) r0) as [|a [|b [|c [|d data0]]]] eqn:S; cbn [length] in SL; try lia.
+      eauto. }
+  destruct X as (f & name & t & data & X).
+  rewrite (lit_parse_eq_rfc body r f name t data Hwf X) in H.
+  inversion H; subst; clear H. cbn [l_format l_name l_mtime l_data]. split; [exact X|reflexivity].
 Qed.
 
 Lemma latin1_ok_wf t : latin1_ok t = true -> wf_bytes t.
@@ -343,7 +376,7 @@ Section Bytes.
     - destruct (frame_parse 10 b x y ltac:(lia) Hs E) as (NE & h & HP & T & Ln).
       split; [assumption|]. unfold parse_one. rewrite HP, T, Ln. cbn [Z.eqb Pos.eqb]. rewrite py_take_exact, py_drop_exact. reflexivity.
     - destruct (frame_parse 19 b x y ltac:(lia) ltac:(unfold small; rewrite Hl; lia) E) as (NE & h & HP & T & Ln).
-      split; [assumption|]. unfold parse_one. rewrite HP, T. cbn [Z.eqb Pos.eqb].
+      split; [assumption|]. unfold parse_one. rewrite HP, T, Ln, Hl. cbn [Z.eqb Pos.eqb Z.of_nat Pos.of_succ_nat Pos.succ].
       rewrite firstn_app_exact, skipn_app_exact by assumption. reflexivity.
   Qed.
 
